@@ -39,53 +39,67 @@ FIELDS = ("name", "script", "working_dir", "deps")
 # ------------------------------------------------------------------ live server
 
 class Live:
+    """the REAL pool server (`local.Server` + `local.Scheduler`) in a forked child process on a loopback port; the harness
+    talks to it through sockets only, and can always get rid of it (SIGKILL) — a server that a change has turned into a
+    busy loop must not slow the rest of the check down"""
+
     def __init__(self, cores):
-        import logging
-        logging.getLogger("gwf").setLevel(logging.CRITICAL)
-        logging.getLogger("asyncio").setLevel(logging.CRITICAL)
-        import warnings
-        warnings.simplefilter("ignore")
+        import select
+        import signal
         self.root = os.path.realpath(common.scratch_dir("gwfverif-c14-"))
         os.makedirs(os.path.join(self.root, ".gwf", "logs"))
         self.cores = cores
-        self.loop = asyncio.new_event_loop()
-        self.loop.set_exception_handler(lambda loop, ctx: None)
-        self.ready = threading.Event()
-        self.errors = []
-        self.port = None
-        self.thread = threading.Thread(target=self._run, daemon=True)
-        self.thread.start()
-        if not self.ready.wait(10):
+        r, w = os.pipe()
+        self.pid = os.fork()
+        if self.pid == 0:
+            try:
+                os.close(r)
+                os.setsid()
+                self._serve(w)
+            finally:
+                os._exit(0)
+        os.close(w)
+        ready, _, _ = select.select([r], [], [], 20)
+        data = os.read(r, 64) if ready else b""
+        os.close(r)
+        if not data:
+            self.stop()
             raise common.Broken("pool server did not start")
+        self.port = int(data)
+        self._signal = signal
 
-    def _run(self):
+    def _serve(self, w):
+        import logging
+        import warnings
+        logging.getLogger("gwf").setLevel(logging.CRITICAL)
+        logging.getLogger("asyncio").setLevel(logging.CRITICAL)
+        warnings.simplefilter("ignore")
+        devnull = os.open(os.devnull, os.O_WRONLY)
+        os.dup2(devnull, 2)
         from gwf.backends import local
-        asyncio.set_event_loop(self.loop)
+        loop = asyncio.new_event_loop()
+        asyncio.set_event_loop(loop)
+        loop.set_exception_handler(lambda loop, ctx: None)
 
         async def main():
-            self.sched = local.Scheduler(self.root, self.cores)
-            self.server = local.Server(self.sched)
+            sched = local.Scheduler(self.root, self.cores)
+            server = local.Server(sched)
             sock = socket.socket(socket.AF_INET, socket.SOCK_STREAM)
             sock.bind(("127.0.0.1", 0))
-            self.port = sock.getsockname()[1]
+            port = sock.getsockname()[1]
             sock.close()
-            fut = asyncio.ensure_future(self.server.start_server("127.0.0.1", self.port))
-            for _ in range(200):
+            fut = asyncio.ensure_future(server.start_server("127.0.0.1", port))
+            for _ in range(400):
                 await asyncio.sleep(0.01)
-                if self.server.server is not None and self.server.server.is_serving():
+                if server.server is not None and server.server.is_serving():
                     break
-            self.ready.set()
+            os.write(w, str(port).encode())
+            os.close(w)
             await fut
         try:
-            self.loop.run_until_complete(main())
-        except BaseException as exc:  # noqa
-            self.errors.append(repr(exc))
-        finally:
-            try:
-                self.loop.run_until_complete(self.loop.shutdown_asyncgens())
-                self.loop.close()
-            except Exception:  # noqa
-                pass
+            loop.run_until_complete(main())
+        except BaseException:  # noqa
+            pass
 
     def client(self):
         from gwf.backends import local
@@ -99,16 +113,18 @@ class Live:
         return s
 
     def stop(self):
-        def _stop():
-            for t in asyncio.all_tasks(self.loop):
-                t.cancel()
-            # Server.wait_closed (3.12) waits for connections the handlers never close: stop the loop ourselves
-            self.loop.call_later(0.02, self.loop.stop)
+        import signal
         try:
-            self.loop.call_soon_threadsafe(_stop)
-        except RuntimeError:
+            os.killpg(self.pid, signal.SIGKILL)       # the server and whatever its tasks still run
+        except (ProcessLookupError, PermissionError):
+            try:
+                os.kill(self.pid, signal.SIGKILL)
+            except ProcessLookupError:
+                pass
+        try:
+            os.waitpid(self.pid, 0)
+        except ChildProcessError:
             pass
-        self.thread.join(10)
         shutil.rmtree(self.root, ignore_errors=True)
 
 
